@@ -64,9 +64,15 @@ func c16opWrite(e *c16Env, r *rand.Rand, n int) {
 		if i%3 == 0 {
 			ctx = cache.WithTTL(bg, -time.Second, false)
 		}
-		_ = e.be.Write(ctx, c16Key(r), "v")
+		var v interface{} = "v"
+		if i%4 == 1 && e.be.AllowsNil() {
+			v = c16SharedPtr // one pointer value written over and over under the same keys (a cached singleton)
+		}
+		_ = e.be.Write(ctx, c16Key(r), v)
 	}
 }
+
+var c16SharedPtr = &GobVal{Name: "singleton", N: 1}
 func c16opDelete(e *c16Env, r *rand.Rand, n int) {
 	for i := 0; i < n; i++ {
 		_ = e.be.Delete(bg, c16Key(r))
